@@ -199,6 +199,8 @@ pub fn run(tier: Tier, seed: u64) -> i32 {
     ev.floor("adversarial assignments found unsatisfied", ev.bucket_get("adversarial.unsatisfied"), tier.pick(15000, 300000));
     ev.floor("end-to-end confirmations", ev.bucket_get("end_to_end"), tier.pick(200, 4000));
     ev.floor("shared wires", ev.bucket_get("shared_wires"), 10);
+    ev.floor("near-miss assignments (one sub-identity on one row) refused by the real prover", ev.bucket_get("near_miss.end_to_end"), 20);
+    ev.floor("sub-identities covered by near misses", ev.set_len("near_miss_identities") as u64, 1);
     ev.finish()
 }
 
